@@ -37,7 +37,7 @@ def main():
             rows.append((sid, "patch does not apply", "", ""))
             continue
         try:
-            rc, out = sh(f"./check {sid} --tier quick", cwd=HERE, timeout=3000)
+            rc, out = sh(f"./check {sid.split('-')[0]} --tier quick", cwd=HERE, timeout=3000)
         finally:
             sh("git -C /repo checkout -- .")
         obl = []
@@ -53,10 +53,10 @@ def main():
         meta = json.load(open(meta_p)) if os.path.exists(meta_p) else {"id": sid}
         notes = open(os.path.join(sd, "notes.md")).read() if os.path.exists(os.path.join(sd, "notes.md")) else ""
         meta.update({
-            "property": sid,
+            "property": sid.split("-")[0],
             "breaks": pick(notes, ("clause broken", "effect", "breaks", "property clause")),
             "needs": pick(notes, ("needed to manifest", "what is needed", "to manifest", "needs")),
-            "check_cmd": f"git -C /repo apply seeded/{sid}/patch.diff && ./check {sid} --tier quick; git -C /repo checkout -- .",
+            "check_cmd": f"git -C /repo apply seeded/{sid}/patch.diff && ./check {sid.split('-')[0]} --tier quick; git -C /repo checkout -- .",
             "check_rc": rc, "detected": rc == 1 and bool(obl), "detected_by": obl[:6],
             "detection_head": sh("git -C /repo rev-parse --short HEAD")[1].strip(),
         })
